@@ -56,8 +56,8 @@ SPEC = {
     "corr": [{"kind": "producer", "quick": 200, "thorough": 50000,
               "runner": {"pkg": "./producer", "test": "TestVerifRawSocket", "race": False, "timeout": "30m"}}],
     "extra": [experienced],
-    "rule": "fault scripts (sink closes / resets / goes down / comes back at message indices) x protocols unix, tcp, udp x "
-            "retry-max 0..5 x 8..400 messages whose contents include printf verbs, stray '%', multi-kilobyte and binary "
+    "rule": "fault scripts (sink closes / resets / goes down / comes back at message indices, or stalls and kills the connection while the producer is blocked half-way through writing a multi-megabyte message) x protocols unix, tcp, udp x "
+            "retry-max 0..5 x 8..400 messages whose lengths also sit on buffer boundaries (2^k-1, 2^k, 2^k+1 for k = 8..16; a new longest message followed by one 2^j-1..2^j+1 octets longer) and whose contents include printf verbs, stray '%', multi-kilobyte and binary "
             "octets; run by producer/verif_rawsocket_test.go against real loopback sockets; non-trivial = the sink received "
             "at least one message; distinct = distinct case line. The model predicts the exact per-connection delivery and "
             "MQErrorCount for unix-socket scripts and all fault-free runs; on tcp/udp fault scripts (kernel timing) the main correspondence prints `nd`; for those the extra pass "
